@@ -377,10 +377,11 @@ theorem bls_decode_flag_checks {K : Type} [CoordField K] [DecidableEq K] [OfNat 
   · next h80 =>
     refine ⟨h80, ?_, ?_⟩
     · intro h40
-      simp only [h40, if_true] at h
       split at h
-      · next hz => cases h; exact ⟨rfl, hz.1, hz.2⟩
-      · cases h
+      · split at h
+        · next hz => cases h; exact ⟨rfl, hz.1, hz.2⟩
+        · cases h
+      · next hc => exact absurd h40 hc
     · intro h40
       split at h
       · next hc => exact absurd h40 hc
@@ -424,6 +425,12 @@ theorem secp_decode_tags (bs : List Nat) (P : WPoint (Fp Params.secpP)) (h : sec
 
 example : secpDecode (List.replicate 33 0) = some none := by decide
 
+private theorem ed_witness_decode :
+    edDecode (1 :: (List.replicate 30 0 ++ [0x80])) = some (⟨0⟩, ⟨1⟩) := by decide +kernel
+private theorem ed_witness_encode :
+    edEncode ((⟨0⟩, ⟨1⟩) : Fp Params.edP × Fp Params.edP) ≠ (1 :: (List.replicate 30 0 ++ [0x80])) := by
+  decide +kernel
+
 /-- `Curve25519::from_bytes` / `Curve25519Affine::from_bytes` (curve25519-dalek's `decompress`) is
 NOT canonical — KNOWN FINDING `C11:ed:decoder-accepts-noncanonical`: the encoding of `(0, 1)` with
 the sign bit set, and `y = p + 1`, both decode to the identity, whose encoding is `01 00 … 00`.
@@ -431,9 +438,7 @@ The full-strength statement `∀ bs p, edDecode bs = some p → edEncode p = bs`
 theorem ed_decode_not_canonical :
     ¬ (∀ bs p, bs.length = 32 → edDecode bs = some p → edEncode p = bs) := by
   intro h
-  have := h (1 :: (List.replicate 30 0 ++ [0x80])) (⟨0⟩, ⟨1⟩) (by decide) (by decide +kernel)
-  revert this
-  decide +kernel
+  exact ed_witness_encode (h _ _ (by decide) ed_witness_decode)
 
 /-- What does hold for the Curve25519 decoder: an accepted string whose `y` is below the modulus
 and whose decoded `x` is non-zero or has a clear sign bit re-encodes to itself
@@ -441,56 +446,10 @@ and whose decoded `x` is non-zero or has a clear sign bit re-encodes to itself
 theorem ed_decode_canonical_partial (bs : List Nat) (p : Fp Params.edP × Fp Params.edP)
     (hn : leBytesToNat bs < 2 ^ 256) (hy : leBytesToNat bs % 2 ^ 255 < Params.edP)
     (h : edDecode bs = some p) (hx : p.1.v ≠ 0 ∨ leBytesToNat bs / 2 ^ 255 % 2 = 0) :
-    p.2.v + (p.1.v % 2) * 2 ^ 255 = leBytesToNat bs := by
-  unfold edDecode at h
-  simp only at h
-  split at h
-  · cases h
-  · next x0 hs =>
-    have hq0 : 0 < Params.edP := by decide
-    have hodd : Params.edP % 2 = 1 := by decide
-    have hx0 := Fp.sqrt_lt hq0 hs
-    have hdec : leBytesToNat bs = leBytesToNat bs % 2 ^ 255 + (leBytesToNat bs / 2 ^ 255) * 2 ^ 255 := by
-      have := Nat.div_add_mod (leBytesToNat bs) (2 ^ 255); omega
-    have h2 : leBytesToNat bs / 2 ^ 255 < 2 := by
-      apply Nat.div_lt_of_lt_mul; omega
-    -- the non-negative root `xe`
-    obtain ⟨xe, hxe, e1, e2⟩ : ∃ xe : Fp Params.edP, xe = (if x0.isOdd then -x0 else x0) ∧
-        xe.v % 2 = 0 ∧ xe.v < Params.edP := by
-      refine ⟨_, rfl, ?_⟩
-      by_cases ho : x0.isOdd = true
-      · rw [if_pos ho]
-        have hodd' : x0.v % 2 = 1 := by simpa [Fp.isOdd] using ho
-        have hne : x0.v ≠ 0 := by omega
-        obtain ⟨a, b⟩ := neg_parity hodd hx0 hne
-        exact ⟨by omega, b⟩
-      · rw [if_neg ho]
-        have : x0.v % 2 ≠ 1 := by simpa [Fp.isOdd] using ho
-        exact ⟨by omega, hx0⟩
-    rw [← hxe] at h
-    rw [Nat.mod_eq_of_lt hy] at h
-    by_cases hsg : (leBytesToNat bs / 2 ^ 255 % 2 == 1) = true
-    · rw [if_pos hsg] at h
-      cases h
-      simp only at hx ⊢
-      have hs1 : leBytesToNat bs / 2 ^ 255 = 1 := by
-        have : leBytesToNat bs / 2 ^ 255 % 2 = 1 := by simpa using hsg
-        omega
-      have hne : xe.v ≠ 0 := by
-        intro hz
-        cases hx with
-        | inl hx =>
-          apply hx
-          show negMod xe.v Params.edP = 0
-          rw [hz]; decide
-        | inr hx => omega
-      obtain ⟨a, _⟩ := neg_parity hodd e2 hne
-      rw [a]; omega
-    · rw [if_neg hsg] at h
-      cases h
-      simp only
-      have : leBytesToNat bs / 2 ^ 255 % 2 ≠ 1 := by simpa using hsg
-      omega
+    p.2.v + (p.1.v % 2) * 2 ^ 255 = leBytesToNat bs :=
+  edDecodeGen_canonical_partial (by decide) (by decide) _ bs p hn hy h hx
+
+example : edDecode (1 :: List.replicate 31 0) = some (⟨0⟩, ⟨1⟩) := by decide +kernel
 
 end codecs
 
